@@ -73,6 +73,10 @@ func pop(kind, name string) apiEvent {
 		pos++ // engine-side environment value: not replayable natively
 	}
 	if pos >= len(cur.API) {
+		if len(res.Failures) > 0 {
+			// the recorded path ended at the violated assertion: stop here
+			panic(abortCase{"end of recorded counterexample prefix"})
+		}
 		desync(fmt.Sprintf("replay exhausted at %s(%q)", kind, name))
 	}
 	ev := cur.API[pos]
